@@ -95,6 +95,18 @@ pub struct RunCfg {
     /// Custom `which_scenario`: scenarios whose name is listed are serial.
     #[serde(default)]
     pub serial_custom: Option<Vec<String>>,
+    /// Tracing integration (C20): run through `Cucumber::init_tracing()`; one
+    /// such case per process (the subscriber is global).
+    #[serde(default)]
+    pub tracing: bool,
+    /// Log events emitted by every listed callback kind before / after its
+    /// suspension point.
+    #[serde(default)]
+    pub logs_pre: u32,
+    #[serde(default)]
+    pub logs_post: u32,
+    #[serde(default)]
+    pub log_points: Vec<String>,
 }
 
 #[derive(Clone, Debug, Default, Deserialize, Serialize)]
@@ -178,6 +190,9 @@ struct Ctx {
     wakers: HashMap<String, Waker>,
     opened: HashSet<String>,
     world_ctr: u64,
+    logs_pre: u32,
+    logs_post: u32,
+    log_points: Vec<String>,
 }
 
 thread_local! {
@@ -260,6 +275,26 @@ impl Future for Gate {
     }
 }
 
+/// Emits the scripted `tracing` log events of a callback (C20).
+fn emit_logs(point: &str, phase: &str, s: &str, att: i64, label: &str) {
+    let n = with_ctx(|c| {
+        if c.log_points.iter().any(|p| p == point) {
+            if phase == "pre" { c.logs_pre } else { c.logs_post }
+        } else {
+            0
+        }
+    });
+    for k in 0..n {
+        let msg = format!("L|{s}|{att}|{}|{phase}{k}", label.replace(' ', "_"));
+        rec(
+            "cb",
+            json!({"cb":"log","point":point,"s":s,"att":att,"label":label,
+                   "msg":msg,"world":0,"ctr":0}),
+        );
+        tracing::info!("{msg}");
+    }
+}
+
 // ----------------------------------------------------------- test double ----
 
 #[derive(Debug)]
@@ -334,7 +369,9 @@ fn step_fn(w: &mut TWorld, ctx: step::Context) -> LocalBoxFuture<'_, ()> {
             json!({"cb":"enter","point":"step","s":s,"att":att,"label":label,
                    "world":w.id,"ctr":w.ctr,"nmatches":nmatches}),
         );
+        emit_logs("step", "pre", &s, att as i64, &label);
         Gate::new(format!("{s}#{att}:{label}")).await;
+        emit_logs("step", "post", &s, att as i64, &label);
         w.ctr += 1;
         let out = with_ctx(|c| attempt_outcome(c, &s, att))
             .steps
@@ -384,7 +421,9 @@ w: &'a mut TWorld,
                    "label":"before","world":w.id,"ctr":w.ctr,
                    "wowner_s":w.owner.0,"wowner_att":w.owner.1}),
         );
+        emit_logs("before", "pre", &s, att, "before");
         Gate::new(format!("{s}#{att}:before")).await;
+        emit_logs("before", "post", &s, att, "before");
         w.ctr += 1;
         let out = with_ctx(|c| attempt_outcome(c, &s, att.max(0) as usize))
             .before
@@ -423,7 +462,9 @@ w: Option<&'a mut TWorld>,
                    "has_world":w.is_some(),"reason":reason,
                    "wowner_s":wo_s,"wowner_att":wo_a}),
         );
+        emit_logs("after", "pre", &s, att, "after");
         Gate::new(format!("{s}#{att}:after")).await;
+        emit_logs("after", "post", &s, att, "after");
         let mut ctr = ctr;
         if let Some(w) = w {
             w.ctr += 1;
@@ -507,6 +548,23 @@ impl Stream for ScriptedParser {
     }
 }
 
+/// `Parser` handing out the scripted stream (for the `Cucumber` builder).
+struct ParserOf(RefCell<Option<ScriptedParser>>);
+
+impl cucumber::Parser<()> for ParserOf {
+    type Cli = cucumber::cli::Empty;
+    type Output = ScriptedParser;
+
+    fn parse(self, (): (), _: cucumber::cli::Empty) -> ScriptedParser {
+        self.0.borrow_mut().take().expect("parser stream")
+    }
+}
+
+thread_local! {
+    /// What the recording writer of a tracing run received (projections).
+    static TRACED: RefCell<Vec<Value>> = const { RefCell::new(Vec::new()) };
+}
+
 // ----------------------------------------------------------------- waker ----
 
 struct FlagWaker {
@@ -551,6 +609,9 @@ fn run_case_inner(
             wakers: HashMap::new(),
             opened: HashSet::new(),
             world_ctr: 0,
+            logs_pre: case.cfg.logs_pre,
+            logs_post: case.cfg.logs_post,
+            log_points: case.cfg.log_points.clone(),
         });
     });
     cucumber::verif::set_sink(Some(Box::new(sink)));
@@ -628,24 +689,80 @@ fn run_case_inner(
             .map(|f| f.parse().unwrap()),
     };
 
-    // Build the stream for the four hook combinations (distinct types).
-    let stream: futures::stream::LocalBoxStream<'static, Item> =
-        match (cfg.before, cfg.after) {
-            (false, false) => basic.run(parser_stream, cli),
-            (true, false) => basic.before(before).run(parser_stream, cli),
-            (false, true) => basic.after(after).run(parser_stream, cli),
-            (true, true) => {
-                basic.before(before).after(after).run(parser_stream, cli)
-            }
+    if cfg.tracing {
+        // Through the `Cucumber` builder with `init_tracing()`; the raw stream
+        // is recorded by the writer.
+        let rec_writer = crate::writers::RecW::default();
+        let wlog = std::rc::Rc::clone(&rec_writer.log);
+        let opts = || cucumber::cli::Opts {
+            re_filter: None,
+            tags_filter: None,
+            parser: cucumber::cli::Empty,
+            runner: cli.clone(),
+            writer: cucumber::cli::Empty,
+            custom: cucumber::cli::Empty,
         };
-
-    drive(stream, case, &recorder, &items_out);
+        let wr = || {
+            cucumber::writer::AssertNormalized::new(rec_writer.clone())
+        };
+        let p = || ParserOf(RefCell::new(None));
+        macro_rules! app {
+            ($runner:expr) => {{
+                let pp = p();
+                *pp.0.borrow_mut() = Some(parser_stream);
+                let app = cucumber::Cucumber::<TWorld, _, (), _, _, cucumber::cli::Empty>::custom(
+                    pp, $runner, wr(),
+                )
+                .with_cli(opts())
+                .init_tracing();
+                Box::pin(async move { drop(app.run(()).await) })
+                    as Pin<Box<dyn Future<Output = ()>>>
+            }};
+        }
+        let mut fut: Pin<Box<dyn Future<Output = ()>>> =
+            match (cfg.before, cfg.after) {
+                (false, false) => app!(basic),
+                (true, false) => app!(basic.before(before)),
+                (false, true) => app!(basic.after(after)),
+                (true, true) => app!(basic.before(before).after(after)),
+            };
+        drive(
+            Box::new(move |cx| match fut.as_mut().poll(cx) {
+                Poll::Ready(()) => Poll::Ready(None),
+                Poll::Pending => Poll::Pending,
+            }),
+            case,
+            &recorder,
+            &items_out,
+        );
+        TRACED.with(|t| *t.borrow_mut() = wlog.borrow().clone());
+    } else {
+        // Build the stream for the four hook combinations (distinct types).
+        let mut stream: futures::stream::LocalBoxStream<'static, Item> =
+            match (cfg.before, cfg.after) {
+                (false, false) => basic.run(parser_stream, cli),
+                (true, false) => basic.before(before).run(parser_stream, cli),
+                (false, true) => basic.after(after).run(parser_stream, cli),
+                (true, true) => {
+                    basic.before(before).after(after).run(parser_stream, cli)
+                }
+            };
+        drive(
+            Box::new(move |cx| stream.poll_next_unpin(cx)),
+            case,
+            &recorder,
+            &items_out,
+        );
+    }
 
     cucumber::verif::set_sink(None);
 }
 
+/// What is polled: yields stream items, `None` when the run is over.
+type Poller<'a> = Box<dyn FnMut(&mut Context<'_>) -> Poll<Option<Item>> + 'a>;
+
 fn drive(
-    mut stream: futures::stream::LocalBoxStream<'static, Item>,
+    mut poller: Poller<'_>,
     case: &Case,
     recorder: &Arc<Mutex<Recorder>>,
     items_out: &Arc<Mutex<Vec<Item>>>,
@@ -672,7 +789,7 @@ fn drive(
     loop {
         flag.woken.store(false, Ordering::SeqCst);
         polls += 1;
-        let r = stream.poll_next_unpin(&mut cx);
+        let r = poller(&mut cx);
         let progress = recorder.lock().unwrap().progress;
         match r {
             Poll::Ready(Some(item)) => {
@@ -808,8 +925,16 @@ pub fn run_case(case: &Case) -> RunResult {
                 run_case_inner(&case2, rec2, li);
             }));
             let items = std::mem::take(&mut *local_items.lock().unwrap());
-            *proj2.lock().unwrap() =
-                items.iter().map(evjson::describe).collect();
+            *proj2.lock().unwrap() = if case2.cfg.tracing {
+                TRACED.with(|t| {
+                    t.borrow()
+                        .iter()
+                        .filter_map(|l| l.get("ev").cloned())
+                        .collect()
+                })
+            } else {
+                items.iter().map(evjson::describe).collect()
+            };
             let calls_during = SENTINEL_CALLS.load(Ordering::SeqCst);
             // pipelines (C01) are fed after the run, outside its panic-hook
             // window
@@ -932,6 +1057,13 @@ fn merge_rx(lines: Vec<String>, rx: &[Value]) -> Vec<String> {
                             .unwrap_or(-1);
                         v["item"] = json!(item);
                     }
+                    if r["k"] == "Log" {
+                        let re = Regex::new(r"L\|[^\s]*").unwrap();
+                        let m = re
+                            .find(r["msg"].as_str().unwrap_or(""))
+                            .map_or("", |m| m.as_str());
+                        v["lmsg"] = json!(m);
+                    }
                     for k in ["pty", "pmsg", "ptext", "caps", "loc", "cands", "world"] {
                         if let Some(x) = r.get(k) {
                             v[k] = x.clone();
@@ -947,6 +1079,9 @@ fn merge_rx(lines: Vec<String>, rx: &[Value]) -> Vec<String> {
             }
             if kind == "ev" && v["t"] == "Sc" {
                 let k = v["k"].as_str().unwrap_or("").to_owned();
+                if k == "Log" && v.get("lmsg").is_none() {
+                    v["lmsg"] = json!("");
+                }
                 if matches!(k.as_str(), "StepF" | "HookF") {
                     for (key, dflt) in [
                         ("pty", json!("")),
